@@ -458,7 +458,7 @@ def gen_body(r, desc):
             k = 0
         return ['retzoo', k]
     if x < 0.12:
-        return ['raises', r.choice(['Exception', 'BaseException', 'Pedantic', 'TypeError'])]
+        return ['raises', r.choice(['Exception', 'BaseException', 'Pedantic', 'TypeError', 'TypeErrorCallLike'])]
     if (ret is None or ret[0] == 'bare') and x < 0.32:
         return ['ret', K.lit(None)]           # a function without (complete) return annotation that simply falls off its end
     want = ret if ret is not None and ret[0] not in ('bare', 'special') else K.cls_term(int)
@@ -478,8 +478,10 @@ class BodyExc(Exception): pass
 class BodyBaseExc(BaseException): pass
 
 
-def make_exc(kind):
+def make_exc(kind, name='f'):
     from pedantic.exceptions import PedanticException
+    if kind == 'TypeErrorCallLike':      # the body itself fails with a TypeError that reads like a wrong call OF THE FUNCTION (a bug inside the body)
+        return TypeError(f"{name}() got an unexpected keyword argument 'zz'")
     return {'Exception': BodyExc, 'BaseException': BodyBaseExc, 'Pedantic': PedanticException, 'TypeError': TypeError}[kind]('scripted')
 
 
@@ -691,7 +693,7 @@ def execute(P, F, acc, pos, kw, body, ctxmode='full'):
         finally:
             K.INST_FACTORY.clear()
         if body[0] == 'raises':
-            script = ('raises', make_exc(body[1]))
+            script = ('raises', make_exc(body[1], acc[-1]))
         elif body[0] == 'retzoo':
             script = ('retzoo', RESULT_ZOO[body[1]][1])
         else:
